@@ -169,7 +169,7 @@ fn marker_monitor(rng: &mut Rng, out: &mut Out) {
     for m in 0u16..=255 {
         let m = m as u8;
         for position in 0..3 {
-            for tail_kind in 0..6 {
+            for tail_kind in 0..13 {
                 let tail_len = match tail_kind {
                     0 => 0,
                     1 => 1,
@@ -177,7 +177,22 @@ fn marker_monitor(rng: &mut Rng, out: &mut Out) {
                     3 => 16,
                     _ => rng.usize(0, 16),
                 };
-                let tail = if tail_kind == 5 { vec![0u8; tail_len] } else { rng.bytes(tail_len) };
+                // kinds 6-12: the bodies the AMF0 specification gives the types this library does
+                // not support, complete and well formed (a decoder that "also accepts" one of them
+                // no longer reports the marker as an error): u16 reference, date (double + time
+                // zone), long string / XML document (u32 length + UTF-8), typed object (class name +
+                // object body), u16-length string, nothing at all, four zero bytes
+                let tail: Vec<u8> = match tail_kind {
+                    5 => vec![0u8; tail_len],
+                    6 => vec![0, 0],
+                    7 => vec![0x42, 0x76, 0x3C, 0x8F, 0x10, 0, 0, 0, 0, 0],
+                    8 => vec![0, 0, 0, 3, b'a', b'b', b'c'],
+                    9 => vec![0, 1, b'C', 0, 1, b'p', 0x05, 0, 0, 9],
+                    10 => vec![0, 3, b'a', b'b', b'c'],
+                    11 => vec![0, 0, 0, 0],
+                    12 => vec![0, 0, 0, 6, 0xE4, 0xB8, 0xAD, 0xE6, 0x96, 0x87],
+                    _ => rng.bytes(tail_len),
+                };
                 let mut bytes = match position {
                     0 => vec![],
                     1 => vec![0x0A, 0, 0, 0, 1],
@@ -223,7 +238,7 @@ impl Check for C12 {
     fn run_case(&self, _tier: Tier, k: u64, rng: &mut Rng, out: &mut Out) {
         if k == 0 {
             marker_monitor(rng, out);
-            out.sample(|| json!({"kind": "marker enumeration", "markers": 256, "positions": ["top-level", "array element", "property value"], "tails_per_marker_position": 6}));
+            out.sample(|| json!({"kind": "marker enumeration", "markers": 256, "positions": ["top-level", "array element", "property value"], "tails_per_marker_position": 13}));
             return;
         }
         if k == 1 {
